@@ -3,12 +3,64 @@
 
 static const char *K_D4 = "cmode-byte-unauthenticated";
 
+// error paths: every allocation made while decrypting / verifying fails in turn, for the intact file and for
+// one altered file. Whatever the code does about the failure, success must still mean "the original plaintext",
+// and the altered file must not be accepted.
+static Verdict run_c05_fault(const Case &c, const EncCase &e, const bytes &base)
+{
+  Verdict v;
+  v.classes.push_back("kind=allocfault");
+  if (!wapi::has_scheduler())
+    return v;
+  bytes alt = base;
+  size_t off = 48 + 20 * (size_t)e.T + (size_t)c.geti("faultoff") % (base.size() - 48 - 20 * (size_t)e.T);
+  alt[off] ^= 0x04;
+  for (int altered = 0; altered < 2; altered++)
+    for (int dec = 0; dec < 2; dec++)
+    {
+      const bytes &f = altered ? alt : base;
+      FaultRun cnt = run_faulted(dec, f, e.key, e, -1);
+      if (cnt.st != CH_OK)
+        continue;
+      long A = std::min<long>(cnt.o.allocs_seen, 300);
+      for (long n = 0; n < A; n++)
+      {
+        FaultRun fr = run_faulted(dec, f, e.key, e, n);
+        v.weight++;
+        if (fr.st != CH_OK)
+        {
+          v.classes.push_back("fault:abnormal_end(accepted)");
+          continue;
+        }
+        v.classes.push_back(!fr.o.fault_fired ? "fault:not_reached" : fr.o.threw ? "fault:exception" : "fault:handled_by_the_code");
+        if (fr.o.fault_fired)
+          v.more_distinct.push_back(fnv64(std::string(altered ? "a" : "i") + (dec ? "d" : "v") + std::to_string(n), fnv64(f.data(), f.size())));
+        std::string m;
+        if (altered && fr.o.ret)
+          m = std::string(dec ? "decryption" : "verification") + " accepted an altered file (byte " + std::to_string(off) + " ^ 0x04)";
+        else if (!altered && dec && fr.o.ret && fr.o.out != e.P)
+          m = "decryption of the intact file reported success but delivered plaintext that differs from what was encrypted (" + std::to_string(fr.o.out.size()) + " bytes for " + std::to_string(e.P.size()) + ")";
+        if (!m.empty())
+        {
+          Verdict fl = Verdict::fail(m + " when allocation #" + std::to_string(n) + " of the operation failed [cmode " + std::to_string(e.cmode) + ", hmode " + std::to_string(e.hmode) + ", T=" + std::to_string(e.T) + "]");
+          fl.nontrivial = true;
+          fl.classes = v.classes;
+          return fl;
+        }
+      }
+    }
+  v.nontrivial = !v.more_distinct.empty();
+  return v;
+}
+
 static Verdict run_c05(const Case &c)
 {
   Verdict v;
   EncCase e = enc_from(c);
   std::string kind = c.get("kind", "edits");
   bytes base = base_file(e, c.geti("toolbase") != 0);
+  if (kind == "allocfault" && base.size() >= 84)
+    return run_c05_fault(c, e, base);
   if (base.size() < 84)
   {
     v.classes.push_back("toolbase_unavailable");
@@ -75,6 +127,46 @@ static Verdict run_c05(const Case &c)
         labels.push_back(lab);
       }
   }
+  else if (kind == "ext")
+  {
+    // extensions: plain runs of zeros / 0x80 + zeros up to every alignment, and the Merkle-Damgard padding
+    // a hash would have appended itself (for the authenticated range, the whole file and the body, with
+    // and without HMAC's 64-byte key block in front, both length encodings), alone and followed by more data:
+    // an implementation whose finalisation is skipped or repeated on some path accepts one of them
+    for (size_t n = 1; n <= 64; n++)
+    {
+      for (int lead : {0x00, 0x80})
+      {
+        bytes f = base;
+        f.push_back((uint8_t)lead);
+        f.insert(f.end(), n - 1, 0);
+        files.push_back(f);
+        labels.push_back("A:" + hex(bytes(f.begin() + base.size(), f.end())));
+      }
+    }
+    for (size_t range : {base.size() - 48, base.size(), base.size() - body})
+      for (size_t prefix : {(size_t)64, (size_t)0})
+        for (int be = 0; be < 2; be++)
+        {
+          uint64_t msg = prefix + range;
+          bytes pad;
+          pad.push_back(0x80);
+          while ((msg + pad.size()) % 64 != 56)
+            pad.push_back(0);
+          uint64_t bits = msg * 8;
+          for (int i = 0; i < 8; i++)
+            pad.push_back((uint8_t)(be ? bits >> (56 - 8 * i) : bits >> (8 * i)));
+          for (size_t extra : {(size_t)0, (size_t)16, (size_t)64})
+          {
+            bytes f = base;
+            f.insert(f.end(), pad.begin(), pad.end());
+            for (size_t i = 0; i < extra; i++)
+              f.push_back((uint8_t)(0x41 + i));
+            files.push_back(f);
+            labels.push_back("A:" + hex(bytes(f.begin() + base.size(), f.end())));
+          }
+        }
+  }
   else if (kind == "hdr")
   {
     for (int off : {8, 9})
@@ -101,7 +193,16 @@ static Verdict run_c05(const Case &c)
   v.classes.push_back("cmode" + std::to_string(e.cmode));
   v.weight = files.size();
   std::vector<DV> res = batch_dv(files, {e.key}, e.T, e.chunk, e.refill);
+  if (files.size() > 1 && res[0].evaluated && res[0].st != CH_OK)
+  {
+    // the intact file did not get through normally (not C05's subject): judge the altered files without it
+    v.classes.push_back("intact_file_run_abnormal_see_C01_C04_C11");
+    files.erase(files.begin());
+    labels.erase(labels.begin());
+    res = batch_dv(files, {e.key}, e.T, e.chunk, e.refill);
+  }
   size_t known_hits = 0;
+  bool intact_ok = true;
   for (size_t i = 0; i < files.size(); i++)
   {
     const bytes &f = files[i];
@@ -112,9 +213,10 @@ static Verdict run_c05(const Case &c)
     {
       if (r.st == CH_OK && (!r.vret || !r.dret || r.dout != e.P))
       {
-        Verdict fl = Verdict::fail("the unmodified file is not accepted with the right key (harness expectation; see C01/C12)");
-        fl.nontrivial = true;
-        return fl;
+        // not a statement of C05 (C01 / C02 / C12 decide it): the altered files are still judged, with no
+        // expectation derived from this base
+        v.classes.push_back("intact_file_not_accepted_see_C01_C02_C12");
+        intact_ok = false;
       }
       if (i > 0)
         v.classes.push_back("edit_is_identity");
@@ -159,7 +261,7 @@ static Verdict run_c05(const Case &c)
     fl.replay_text = rc.text();
     return fl;
   }
-  v.nontrivial = !v.more_distinct.empty();
+  v.nontrivial = !v.more_distinct.empty() && intact_ok;
   if (known_hits)
   {
     v.known = K_D4;
@@ -209,6 +311,17 @@ static Case gen_c05()
   if (k < 17)
   {
     c.set("kind", "tagforge");
+    return c;
+  }
+  if (k < 21)
+  {
+    c.set("kind", "ext");
+    return c;
+  }
+  if (k < 23 && wapi::has_scheduler())
+  {
+    c.set("kind", "allocfault");
+    c.seti("faultoff", g::range(0, 4096));
     return c;
   }
   c.set("kind", "edits");
@@ -287,12 +400,14 @@ static void fixed_c05(Ctx &ctx)
   // exhaustive single-bit flips, truncations and mode-byte sweeps of one small file per (cmode, hmode)
   for (int cm = 0; cm < 5; cm++)
     for (int hm = 0; hm < 3; hm++)
-      for (const char *kind : {"bitflips", "truncs", "hdr", "tagforge"})
+      for (const char *kind : {"bitflips", "truncs", "hdr", "tagforge", "ext", "ext/tool"})
       {
         if (!mine(ctx, i++))
           continue;
         Case c;
-        c.set("kind", kind);
+        c.set("kind", std::string(kind).substr(0, std::string(kind).find('/')));
+        if (std::string(kind).find('/') != std::string::npos)
+          c.seti("toolbase", 1);
         c.seti("plen", 20 + 16 * cm + hm);
         c.set("pseed", std::to_string(cm * 10 + hm + 500));
         c.seti("pstyle", 0);
